@@ -31,6 +31,7 @@ EXPLANATION = (
     "the decoy name is prefix + name; in concatenated mode the targets "
     "come first (proteins += decoys), otherwise only decoys; every record "
     "is written as '>' + name, newline, wrapped sequence. Also: entry boundaries of the input FASTA (shared with C16a). "
+    "Also: no early exit from the peptide loop is taken while a peptide is left (exit conditions evaluated over peptide index, site count and interior length). "
     "NOT decided: "
     "FASTA text round-trip through textwrap / the reader.")
 TECHNIQUE = ("def-use term matching over all definitions + linear normal "
@@ -306,6 +307,46 @@ def _shuffle(ctx, f):
               "interiors of at most one residue are left unchanged, longer "
               "ones are always rewritten",
               f"(interior length, rewritten) deviates: {bad}", node=il)
+    # the peptide loop runs to its end: an early exit (break / return /
+    # raise) may only be taken where nothing is left to visit
+    exits = [n for n in ast.walk(il)
+             if (isinstance(n, ast.Break) and cfg.enclosing(
+                 n, (ast.For, ast.While)) is il)
+             or isinstance(n, (ast.Return, ast.Raise))]
+    early = []
+    for x in exits:
+        xc = [(simp(T.of(t)), o) for t, o in cfg.necessary_conditions(x)
+              if inside(t, il)]
+        for n_sites in (1, 2, 4):
+            for i in range(n_sites - 1):
+                for L in (0, 1, 2, 3):
+                    def atoms(t, L=L, i=i, n_sites=n_sites):
+                        if lin(t) == diff:
+                            return L
+                        if t == LEN_S:
+                            return n_sites
+                        if t == ("idx", SITES):
+                            return i
+                        raise KeyError(t)
+                    try:
+                        taken = all(bool(ev_term(t, atoms)) == o
+                                    for t, o in xc)
+                    except (EvUnknown, KeyError):
+                        raise AnalysisError(
+                            f"{f.qual}: an early exit from the peptide loop "
+                            f"(line {x.lineno}) depends on a condition the "
+                            "rule does not evaluate; rule C18b needs "
+                            "re-reading")
+                    if taken:
+                        early.append((x.lineno, i, n_sites, L))
+    ctx.check(not early, "C18b-peptide-loop-runs-to-the-end", f,
+              f"no peptide is left out by an early exit from the peptide "
+              f"loop ({len(exits)} exit statement(s) evaluated over site "
+              "counts 1, 2, 4 and interior lengths 0..3)",
+              f"(line, peptide index, number of sites, interior length) = "
+              f"{early[:3]}: the loop is left before the last peptide, the "
+              "peptides after it keep the target's residues in place",
+              node=il)
     # definitions of perms[L]
     pst = [e for e in evs if root_name(e.recv) == PERMS and e.kind == "store"]
     ctx.floor("C18a-permutation-definitions", len(pst), 1)
